@@ -1170,4 +1170,76 @@ func runC13(r *Run) {
 	}
 	n := r.N(400, 6000)
 	r.Cases(100, n, 64, c13Random)
+
+	if r.Thorough() {
+		// exhaustive small scope: every stream of 1-3 documents over a 12-symbol alphabet (3 create
+		// variants of a Deployment with an integer field, 3 delete modes, merge / JSON patches with and
+		// without ignoreMissingObject on it, a jq patch on a ConfigMap, one invalid document), on both
+		// initial states (objects absent / present)
+		dep, cm := c13Pool[4], c13Pool[0]
+		create := func(mode, fl string) c13Doc {
+			o := c13Obj{1: 1}
+			return c13Doc{valid: true, inline: true, family: "create:" + mode,
+				m:    map[string]any{"operation": mode, "object": c13Manifest(dep, dep.kind.apiVersion, o)},
+				desc: fmt.Sprintf("C/%s/%d/1/%s", fl, dep.id, c13ObjTok(dep.kind, o))}
+		}
+		coords := func(m map[string]any, k *c13Key) map[string]any {
+			m["apiVersion"], m["kind"], m["namespace"], m["name"] = k.kind.apiVersion, k.kind.name, k.ns, k.name
+			return m
+		}
+		del := func(mode, p string) c13Doc {
+			return c13Doc{valid: true, inline: true, family: "delete:" + mode,
+				m: coords(map[string]any{"operation": mode}, dep), desc: fmt.Sprintf("D/%s/%d/1/0", p, dep.id)}
+		}
+		alphabet := []c13Doc{
+			create("Create", "00"), create("CreateOrUpdate", "01"), create("CreateIfNotExists", "10"),
+			del("Delete", "fg"), del("DeleteInBackground", "bg"), del("DeleteNonCascading", "or"),
+			{valid: true, inline: true, family: "patch:m",
+				m:    coords(map[string]any{"operation": "MergePatch", "subresource": "status", "mergePatch": map[string]any{"spec": map[string]any{"minReadySeconds": 7}}}, dep),
+				desc: fmt.Sprintf("P/m/%d/1/1/00/set.2.i7", dep.id)},
+			{valid: true, inline: true, family: "patch:m",
+				m:    coords(map[string]any{"operation": "MergePatch", "ignoreMissingObject": true, "mergePatch": map[string]any{"spec": map[string]any{"replicas": nil}}}, dep),
+				desc: fmt.Sprintf("P/m/%d/1/0/10/del.1", dep.id)},
+			{valid: true, inline: true, family: "patch:j",
+				m:    coords(map[string]any{"operation": "JSONPatch", "jsonPatch": []any{map[string]any{"op": "remove", "path": "/spec/minReadySeconds", "value": 0}}}, dep),
+				desc: fmt.Sprintf("P/j/%d/1/0/00/rem.2", dep.id)},
+			{valid: true, inline: true, family: "patch:j",
+				m:    coords(map[string]any{"operation": "JSONPatch", "ignoreMissingObject": true, "subresource": "scale", "jsonPatch": []any{map[string]any{"op": "add", "path": "/spec/replicas", "value": 3}}}, dep),
+				desc: fmt.Sprintf("P/j/%d/1/3/10/set.1.i3", dep.id)},
+			{valid: true, inline: false, family: "patch:q",
+				m:    coords(map[string]any{"operation": "JQPatch", "subresource": "/status", "jqFilter": `.data.f1 = "s4"`}, cm),
+				desc: fmt.Sprintf("P/q/%d/1/2/00/set.1.s4", cm.id)},
+		}
+		alphabet = append(alphabet, c13ApplyFault(alphabet[3], "unknownOperation", NewRng(7)))
+		A := len(alphabet)
+		total := 0
+		for l, p := 1, A; l <= 3; l++ {
+			total += p
+			p *= A
+		}
+		r.Cases(1000000, 2*total, 64, func(c *Case, rng *Rng) {
+			k := c.Idx - 1000000
+			present := k%2 == 1
+			k /= 2
+			l := 1
+			for p := A; k >= p; p *= A {
+				k -= p
+				l++
+			}
+			var docs []c13Doc
+			for i := 0; i < l; i++ {
+				docs = append(docs, alphabet[k%A])
+				k /= A
+			}
+			init, initTok := map[int]c13Obj{}, "-"
+			if present {
+				init = map[int]c13Obj{cm.id: {1: 2}, dep.id: {1: 5, 2: 6}}
+				initTok = fmt.Sprintf("%d:1=s2;%d:1=i5+2=i6", cm.id, dep.id)
+			}
+			c.Nontrivial = l >= 2
+			c13RunCase(c, rng, init, initTok, docs, false)
+		})
+		r.Exhaust = true
+		r.Extra["exhaustive_scope"] = fmt.Sprintf("all %d streams of 1-3 documents over a %d-symbol alphabet x 2 initial cluster states", total, A)
+	}
 }
